@@ -45,61 +45,56 @@ Fixpoint val_ind' (P : val -> Prop)
 
 (** ** Comprehension lemmas *)
 
-Lemma seq_conv_all_some {A B} (f : A -> option B) : forall xs,
-  seq_conv f xs = all_some (map f xs).
+Lemma seq_conv_all_ok {A B} (f : A -> res B) : forall xs,
+  seq_conv f xs = all_ok (map f xs).
 Proof.
   induction xs as [|x r IH]; cbn; [reflexivity|].
-  rewrite IH. destruct (f x); [|reflexivity]. destruct (all_some (map f r)); reflexivity.
+  rewrite IH. destruct (f x); cbn; [|reflexivity]. destruct (all_ok (map f r)); reflexivity.
 Qed.
 
-Lemma pairs_conv_all_some {A B} (fk fv : A -> option B) : forall kvs,
-  pairs_conv fk fv kvs =
-  all_some (map (fun kv => match kv with
-                           | (k, x) => match fk k, fv x with
-                                       | Some a, Some b => Some (a, b)
-                                       | _, _ => None
-                                       end
-                           end) kvs).
+Lemma pairs_conv_all_ok E (fk fv : val -> res val) : forall kvs,
+  pairs_conv E fk fv kvs =
+  all_ok (map (fun kv => match kv with (k, x) => pair_spec E (fk k) (fv x) end) kvs).
 Proof.
   induction kvs as [|[k x] r IH]; cbn; [reflexivity|].
-  rewrite IH. destruct (fk k); [|reflexivity]. destruct (fv x); [|reflexivity].
-  destruct (all_some _); reflexivity.
+  rewrite IH. unfold pair_spec. destruct (fk k); cbn; [|reflexivity]. destruct (fv x); cbn; [|reflexivity].
+  destruct (hashable E a); [|reflexivity]. destruct (all_ok _); reflexivity.
 Qed.
 
-Lemma seq_conv_ext {A B} (f g : A -> option B) : forall xs,
+Lemma seq_conv_ext {A B} (f g : A -> res B) : forall xs,
   Forall (fun x => f x = g x) xs -> seq_conv f xs = seq_conv g xs.
 Proof.
   induction xs as [|x r IH]; intros H; cbn; [reflexivity|].
   inversion H as [|? ? Hx Hr]; subst. rewrite Hx, (IH Hr). reflexivity.
 Qed.
 
-Lemma pairs_conv_ext {A B} (fk gk fv gv : A -> option B) : forall kvs,
+Lemma pairs_conv_ext E (fk gk fv gv : val -> res val) : forall kvs,
   Forall (fun kv => fk (fst kv) = gk (fst kv) /\ fv (snd kv) = gv (snd kv)) kvs ->
-  pairs_conv fk fv kvs = pairs_conv gk gv kvs.
+  pairs_conv E fk fv kvs = pairs_conv E gk gv kvs.
 Proof.
   induction kvs as [|[k x] r IH]; intros H; cbn; [reflexivity|].
   inversion H as [|? ? [Hk Hx] Hr]; subst. cbn in Hk, Hx. rewrite Hk, Hx, (IH Hr). reflexivity.
 Qed.
 
-Lemma seq_conv_length {A B} (f : A -> option B) : forall xs items,
-  seq_conv f xs = Some items -> List.length items = List.length xs.
+Lemma seq_conv_length {A B} (f : A -> res B) : forall xs items,
+  seq_conv f xs = Ok items -> List.length items = List.length xs.
 Proof.
   induction xs as [|x r IH]; cbn; intros items H.
   - inversion H; reflexivity.
-  - destruct (f x); [|discriminate]. destruct (seq_conv f r) eqn:E; [|discriminate].
+  - destruct (f x); [|discriminate]. cbn in H. destruct (seq_conv f r) eqn:E; [|discriminate].
     inversion H; subst; cbn. f_equal. now apply IH.
 Qed.
 
-Lemma seq_conv_Forall2 {A B} (f : A -> option B) : forall xs items,
-  seq_conv f xs = Some items -> Forall2 (fun x y => f x = Some y) xs items.
+Lemma seq_conv_Forall2 {A B} (f : A -> res B) : forall xs items,
+  seq_conv f xs = Ok items -> Forall2 (fun x y => f x = Ok y) xs items.
 Proof.
   induction xs as [|x r IH]; cbn; intros items H.
   - inversion H; constructor.
-  - destruct (f x) eqn:Ex; [|discriminate]. destruct (seq_conv f r) eqn:E; [|discriminate].
+  - destruct (f x) eqn:Ex; [|discriminate]. cbn in H. destruct (seq_conv f r) eqn:E; [|discriminate].
     inversion H; subst. constructor; [assumption | now apply IH].
 Qed.
 
-Lemma fields_loop_ext {B} keep (c1 c2 : field -> val -> option B) : forall vs fs,
+Lemma fields_loop_ext {B} keep (c1 c2 : field -> val -> res B) : forall vs fs,
   Forall (fun v => forall f, c1 f v = c2 f v) vs ->
   fields_loop keep c1 fs vs = fields_loop keep c2 fs vs.
 Proof.
@@ -110,30 +105,37 @@ Qed.
 
 (** The names assigned by the loop are exactly the names of the filter-passing
     fields, in field order. *)
-Definition kept (keep : field -> val -> bool) (fs : list field) (vs : list val) :=
-  filter (fun fv => keep (fst fv) (snd fv)) (combine fs vs).
+Definition keeps (keep : field -> val -> res bool) (f : field) (v : val) : bool :=
+  match keep f v with Ok true => true | _ => false end.
 
-Lemma fields_loop_names {B} keep (conv : field -> val -> option B) : forall vs fs out,
-  fields_loop keep conv fs vs = Some out ->
+Definition kept (keep : field -> val -> res bool) (fs : list field) (vs : list val) :=
+  filter (fun fv => keeps keep (fst fv) (snd fv)) (combine fs vs).
+
+Lemma fields_loop_names {B} keep (conv : field -> val -> res B) : forall vs fs out,
+  fields_loop keep conv fs vs = Ok out ->
   map fst out = map (fun fv => fst (fst fv)) (kept keep fs vs).
 Proof.
-  unfold kept. induction vs as [|v r IH]; intros fs out H.
+  unfold kept, keeps. induction vs as [|v r IH]; intros fs out H.
   - destruct fs; cbn in H; inversion H; reflexivity.
   - destruct fs as [|f fs']; cbn in H; [inversion H; reflexivity|].
-    cbn. destruct (keep f v).
-    + destruct (conv f v); [|discriminate].
+    cbn. destruct (keep f v) as [[|]|]; cbn in H; [| |discriminate].
+    + destruct (conv f v); [|discriminate]. cbn in H.
       destruct (fields_loop keep conv fs' r) eqn:E; [|discriminate].
       inversion H; subst; cbn. f_equal. now apply IH.
     + now apply IH.
 Qed.
 
-Lemma fields_loop_id keep : forall vs fs,
-  fields_loop keep (fun _ v => Some v) fs vs =
-  Some (map (fun fv => (fst (fst fv), snd fv)) (kept keep fs vs)).
+Lemma fields_loop_id keep : forall vs fs out,
+  fields_loop keep (fun _ v => Ok v) fs vs = Ok out ->
+  out = map (fun fv => (fst (fst fv), snd fv)) (kept keep fs vs).
 Proof.
-  unfold kept. induction vs as [|v r IH]; intros fs.
-  - destruct fs; reflexivity.
-  - destruct fs as [|f fs']; [reflexivity|]. cbn. destruct (keep f v); rewrite IH; reflexivity.
+  unfold kept, keeps. induction vs as [|v r IH]; intros fs out H.
+  - destruct fs; cbn in H; inversion H; reflexivity.
+  - destruct fs as [|f fs']; cbn in H; [inversion H; reflexivity|].
+    cbn. destruct (keep f v) as [[|]|]; cbn in H; [| |discriminate].
+    + destruct (fields_loop keep _ fs' r) eqn:E; [|discriminate].
+      inversion H; subst; cbn. f_equal. now apply IH.
+    + now apply IH.
 Qed.
 
 Lemma kept_names_sub keep : forall vs fs n,
@@ -141,7 +143,7 @@ Lemma kept_names_sub keep : forall vs fs n,
 Proof.
   unfold kept. induction vs as [|v r IH]; intros fs n H.
   - destruct fs; cbn in H; destruct H.
-  - destruct fs as [|f fs']; [destruct H|]. cbn in H. destruct (keep f v).
+  - destruct fs as [|f fs']; [destruct H|]. cbn in H. destruct (keeps keep f v).
     + cbn in H. destruct H as [<-|H]; [now left | right; eapply IH; eauto].
     + right; eapply IH; eauto.
 Qed.
@@ -152,7 +154,7 @@ Proof.
   unfold kept. induction vs as [|v r IH]; intros fs H.
   - destruct fs; constructor.
   - destruct fs as [|f fs']; [constructor|]. cbn in H. inversion H as [|? ? Hn Hr]; subst.
-    cbn. destruct (keep f v).
+    cbn. destruct (keeps keep f v).
     + cbn. constructor; [|now apply IH]. intros Hin. apply Hn. eapply kept_names_sub; eauto.
     + now apply IH.
 Qed.
@@ -192,8 +194,8 @@ Proof. intros ps H. unfold dict_of_pairs. apply (fold_dict_set_nodup ps [] H). Q
 Lemma record_nodup df ps : NoDup (map fst ps) -> record df ps = VD df (strkeys ps).
 Proof. intros H. unfold record. fold (strkeys ps). now rewrite dict_of_pairs_nodup. Qed.
 
-Lemma fields_loop_out_nodup {B} keep (conv : field -> val -> option B) fs vs out :
-  NoDup (map fst fs) -> fields_loop keep conv fs vs = Some out -> NoDup (map fst out).
+Lemma fields_loop_out_nodup {B} keep (conv : field -> val -> res B) fs vs out :
+  NoDup (map fst fs) -> fields_loop keep conv fs vs = Ok out -> NoDup (map fst out).
 Proof.
   intros Hn H. rewrite (fields_loop_names _ _ _ _ _ H). now apply kept_names_nodup.
 Qed.
@@ -220,10 +222,11 @@ Variables (retain : bool) (flt : option filter_fn) (df : dkind) (ser : option se
 
 Definition pos_of (k : bool) : pos := if k then PKey else PMember.
 
-Definition field_spec (c : nat) (f : field) (x : val) : option val :=
+Definition field_spec (c : nat) (f : field) (x : val) : res val :=
   match ser_apply ser (Some (c, fst f)) x with
-  | Some r => Some r
-  | None => conv_spec E retain flt df ser PField x
+  | Err e => Err e
+  | Ok (Some r) => Ok r
+  | Ok None => conv_spec E retain flt df ser PField x
   end.
 
 Notation any k := (asdict_anything E k retain flt df ser).
@@ -241,8 +244,8 @@ Proof.
     + reflexivity.
     + destruct t as [|n|]; cbn; try reflexivity.
       cbn in Hwf. apply andb_true_iff in Hwf as [Hn _]. rewrite Hlen, Hn. reflexivity.
-    + unfold rebuild_collection; cbn. destruct (mk_set E items); reflexivity.
-    + unfold rebuild_collection; cbn. destruct (mk_frozen E items); reflexivity.
+    + unfold rebuild_collection; cbn. unfold mk_set. destruct (forallb _ items); reflexivity.
+    + unfold rebuild_collection; cbn. unfold mk_frozen. destruct (forallb _ items); reflexivity.
   - destruct k; reflexivity.
 Qed.
 
@@ -267,9 +270,9 @@ Proof. intros H. apply Forall_forall. now apply forallb_forall. Qed.
 
 Lemma members_agree (xs : list val) (k : bool) :
   Forall agrees xs -> forallb wf xs = true ->
-  seq_conv (any k) xs = all_some (map (conv_spec E retain flt df ser (pos_of k)) xs).
+  seq_conv (any k) xs = all_ok (map (conv_spec E retain flt df ser (pos_of k)) xs).
 Proof.
-  intros HF Hwf. rewrite <- seq_conv_all_some. apply seq_conv_ext.
+  intros HF Hwf. rewrite <- seq_conv_all_ok. apply seq_conv_ext.
   apply forallb_Forall in Hwf. revert Hwf. induction HF as [|x r Hx _ IH]; intros Hwf; constructor.
   - inversion Hwf; subst. now apply Hx.
   - inversion Hwf; subst. now apply IH.
@@ -279,31 +282,27 @@ Lemma seq_case (v : val) (xs : list val) :
   (v = VL xs \/ (exists t, v = VT t xs) \/ v = VS xs \/ v = VF xs) ->
   Forall agrees xs -> wf v = true -> forallb wf xs = true ->
   (forall k,
-     match seq_conv (any k) xs with
-     | Some items => rebuild_collection E (if retain then class_of_seq v
-                                           else if k then CfTuple TkT else CfList) items
-     | None => None
-     end =
-     match all_some (map (conv_spec E retain flt df ser (inner_pos (pos_of k))) xs) with
-     | Some items => rebuild_spec E retain (pos_of k) v items
-     | None => None
+     bind (seq_conv (any k) xs)
+          (rebuild_collection E (if retain then class_of_seq v
+                                 else if k then CfTuple TkT else CfList)) =
+     match all_ok (map (conv_spec E retain flt df ser (inner_pos (pos_of k))) xs) with
+     | Ok items => rebuild_spec E retain (pos_of k) v items
+     | Err e => Err e
      end) /\
-  (match seq_conv (any false) xs with
-   | Some items => rebuild_collection E (if retain then class_of_seq v else CfList) items
-   | None => None
-   end =
-   match all_some (map (conv_spec E retain flt df ser PMember) xs) with
-   | Some items => rebuild_spec E retain PField v items
-   | None => None
+  (bind (seq_conv (any false) xs)
+        (rebuild_collection E (if retain then class_of_seq v else CfList)) =
+   match all_ok (map (conv_spec E retain flt df ser PMember) xs) with
+   | Ok items => rebuild_spec E retain PField v items
+   | Err e => Err e
    end).
 Proof.
   intros Hv HF Hwf Hxs. split.
   - intros k. replace (inner_pos (pos_of k)) with (pos_of k) by (destruct k; reflexivity).
     rewrite <- (members_agree xs k HF Hxs).
-    destruct (seq_conv (any k) xs) as [items|] eqn:Es; [|reflexivity].
+    destruct (seq_conv (any k) xs) as [items|] eqn:Es; [|reflexivity]. cbn [bind].
     apply rebuild_agree with (xs := xs); auto. eapply seq_conv_length; eauto.
   - pose proof (members_agree xs false HF Hxs) as Hm. cbn [pos_of] in Hm. rewrite <- Hm.
-    destruct (seq_conv (any false) xs) as [items|] eqn:Es; [|reflexivity].
+    destruct (seq_conv (any false) xs) as [items|] eqn:Es; [|reflexivity]. cbn [bind].
     apply rebuild_agree_field with (xs := xs); auto. eapply seq_conv_length; eauto.
 Qed.
 
@@ -317,8 +316,9 @@ Qed.
 
 Lemma leaf_field_case c f v :
   (forall rec_inst rec_any, asdict_field E rec_inst rec_any true retain df ser c f v =
-     match ser_apply ser (Some (c, fst f)) v with Some r => Some r | None => Some v end) ->
-  conv_spec E retain flt df ser PField v = Some v ->
+     match ser_apply ser (Some (c, fst f)) v with
+     | Err e => Err e | Ok (Some r) => Ok r | Ok None => Ok v end) ->
+  conv_spec E retain flt df ser PField v = Ok v ->
   fld c f v = field_spec c f v.
 Proof.
   intros H1 H2. unfold field_spec. rewrite H1, H2. reflexivity.
@@ -335,13 +335,14 @@ Proof.
     { intros k. cbn [asdict_anything conv_spec]. unfold asdict_body.
       change (fun (f : field) (x : val) =>
                 match ser_apply ser (Some (c, fst f)) x with
-                | Some r => Some r
-                | None => conv_spec E retain flt df ser PField x
+                | Err e => Err e
+                | Ok (Some r) => Ok r
+                | Ok None => conv_spec E retain flt df ser PField x
                 end) with (field_spec c).
       rewrite (fields_loop_ext (passes flt) (fld c) (field_spec c)).
       - destruct (fields_loop (passes flt) (field_spec c) (fields_of E c) fs) as [assigns|] eqn:El;
           [|reflexivity].
-        cbn [option_map]. f_equal. apply record_nodup.
+        cbn [bind]. f_equal. apply record_nodup.
         eapply fields_loop_out_nodup; [apply names_distinct | exact El].
       - cbn in Hwf. apply forallb_Forall in Hwf. clear -IH Hwf.
         induction IH as [|x r Hx _ IHr]; constructor.
@@ -349,14 +350,14 @@ Proof.
         + inversion Hwf; subst. now apply IHr. }
     split; [exact Hany|].
     intros c0 f. unfold asdict_field, field_spec.
-    destruct (ser_apply ser (Some (c0, fst f)) (VI c fs)); [reflexivity|].
+    destruct (ser_apply ser (Some (c0, fst f)) (VI c fs)) as [[r|]|]; try reflexivity.
     rewrite (Hany false). reflexivity.
   - (* list *)
     pose proof (wf_seq_members (VL xs) xs (or_introl eq_refl) Hwf) as Hxs.
     destruct (seq_case (VL xs) xs (or_introl eq_refl) IH Hwf Hxs) as [H1 H2].
     split; [intros k; exact (H1 k)|].
     intros c f. unfold asdict_field, field_spec.
-    destruct (ser_apply ser (Some (c, fst f)) (VL xs)); [reflexivity | exact H2].
+    destruct (ser_apply ser (Some (c, fst f)) (VL xs)) as [[r|]|]; [reflexivity | exact H2 | reflexivity].
   - (* tuple *)
     assert (Hv : VT t xs = VL xs \/ (exists t0, VT t xs = VT t0 xs) \/ VT t xs = VS xs \/ VT t xs = VF xs)
       by (right; left; eexists; reflexivity).
@@ -364,7 +365,7 @@ Proof.
     destruct (seq_case _ xs Hv IH Hwf Hxs) as [H1 H2].
     split; [intros k; exact (H1 k)|].
     intros c f. unfold asdict_field, field_spec.
-    destruct (ser_apply ser (Some (c, fst f)) (VT t xs)); [reflexivity | exact H2].
+    destruct (ser_apply ser (Some (c, fst f)) (VT t xs)) as [[r|]|]; [reflexivity | exact H2 | reflexivity].
   - (* set *)
     assert (Hv : VS xs = VL xs \/ (exists t0, VS xs = VT t0 xs) \/ VS xs = VS xs \/ VS xs = VF xs)
       by (right; right; left; reflexivity).
@@ -372,7 +373,7 @@ Proof.
     destruct (seq_case _ xs Hv IH Hwf Hxs) as [H1 H2].
     split; [intros k; exact (H1 k)|].
     intros c f. unfold asdict_field, field_spec.
-    destruct (ser_apply ser (Some (c, fst f)) (VS xs)); [reflexivity | exact H2].
+    destruct (ser_apply ser (Some (c, fst f)) (VS xs)) as [[r|]|]; [reflexivity | exact H2 | reflexivity].
   - (* frozenset *)
     assert (Hv : VF xs = VL xs \/ (exists t0, VF xs = VT t0 xs) \/ VF xs = VS xs \/ VF xs = VF xs)
       by (right; right; right; reflexivity).
@@ -380,27 +381,24 @@ Proof.
     destruct (seq_case _ xs Hv IH Hwf Hxs) as [H1 H2].
     split; [intros k; exact (H1 k)|].
     intros c f. unfold asdict_field, field_spec.
-    destruct (ser_apply ser (Some (c, fst f)) (VF xs)); [reflexivity | exact H2].
+    destruct (ser_apply ser (Some (c, fst f)) (VF xs)) as [[r|]|]; [reflexivity | exact H2 | reflexivity].
   - (* dict *)
-    assert (Hd : pairs_conv (any true) (any false) kvs =
-                 all_some (map (fun kv => match kv with
-                    | (k, x) => match conv_spec E retain flt df ser PKey k,
-                                      conv_spec E retain flt df ser PMember x with
-                                | Some a, Some b => Some (a, b)
-                                | _, _ => None
-                                end
+    assert (Hd : pairs_conv E (any true) (any false) kvs =
+                 all_ok (map (fun kv => match kv with
+                    | (k, x) => pair_spec E (conv_spec E retain flt df ser PKey k)
+                                            (conv_spec E retain flt df ser PMember x)
                     end) kvs)).
-    { rewrite <- pairs_conv_all_some. apply pairs_conv_ext.
+    { rewrite <- pairs_conv_all_ok. apply pairs_conv_ext.
       cbn in Hwf. apply forallb_Forall in Hwf. clear -IH Hwf.
       induction IH as [|[a b] r [Ha Hb] _ IHr]; constructor.
       - inversion Hwf as [|? ? Hab _]; subst. apply andb_true_iff in Hab as [Wa Wb]. cbn.
         split; [apply (proj1 (Ha Wa) true) | apply (proj1 (Hb Wb) false)].
       - inversion Hwf; subst. now apply IHr. }
     split.
-    + intros k. cbn [asdict_anything conv_spec]. rewrite Hd. reflexivity.
+    + intros k. cbn [asdict_anything conv_spec]. rewrite Hd. destruct (all_ok _); reflexivity.
     + intros c f. unfold asdict_field, field_spec.
-      destruct (ser_apply ser (Some (c, fst f)) (VD dk kvs)); [reflexivity|].
-      cbn [conv_spec]. rewrite Hd. reflexivity.
+      destruct (ser_apply ser (Some (c, fst f)) (VD dk kvs)) as [[r|]|]; try reflexivity.
+      cbn [conv_spec]. rewrite Hd. destruct (all_ok _); reflexivity.
   - (* serializer result *)
     split; [intros [|]; reflexivity | intros; apply leaf_field_case; reflexivity].
   - split; [intros [|]; reflexivity | intros; apply leaf_field_case; reflexivity].
@@ -419,8 +417,8 @@ Lemma asdict_anything_inst k retain flt df ser c vs :
 Proof. reflexivity. Qed.
 
 Lemma asdict_field_norecurse rec_inst rec_any retain df ser c f v :
-  asdict_field E rec_inst rec_any false retain df ser c f v = Some (ser_value ser (Some (c, fst f)) v).
-Proof. unfold asdict_field, ser_value. destruct (ser_apply ser (Some (c, fst f)) v); reflexivity. Qed.
+  asdict_field E rec_inst rec_any false retain df ser c f v = ser_value ser (Some (c, fst f)) v.
+Proof. unfold asdict_field, ser_value. destruct (ser_apply ser (Some (c, fst f)) v) as [[r|]|]; reflexivity. Qed.
 
 Theorem asdict_reference_l :
   (forall c, NoDup (map fst (fields_of E c))) ->
@@ -434,9 +432,9 @@ Proof.
       with (asdict_anything E false retain flt df ser (VI c fs)).
     exact (proj1 (anything_agrees E Hnd retain flt df ser (VI c fs) Hwf) false).
   - unfold asdict, asdict_spec, asdict_body.
-    rewrite (fields_loop_ext (passes flt) _ (fun f x => Some (ser_value ser (Some (c, fst f)) x))).
+    rewrite (fields_loop_ext (passes flt) _ (fun f x => ser_value ser (Some (c, fst f)) x)).
     + destruct (fields_loop _ _ _ _) as [assigns|] eqn:El; [|reflexivity].
-      cbn [option_map]. f_equal. apply record_nodup.
+      cbn [bind]. f_equal. apply record_nodup.
       eapply fields_loop_out_nodup; [apply Hnd | exact El].
     + apply Forall_forall. intros v _ f. apply asdict_field_norecurse.
 Qed.
@@ -444,7 +442,7 @@ Qed.
 (** Keys: the filter-passing field names, in field order. *)
 Theorem asdict_keys_l : forall recurse retain flt df ser c vs r,
   NoDup (map fst (fields_of E c)) ->
-  asdict E recurse retain flt df ser (VI c vs) = Some r ->
+  asdict E recurse retain flt df ser (VI c vs) = Ok r ->
   exists items, r = VD df items /\
     map fst items = map (fun fv => VStr (fst (fst fv))) (kept (passes flt) (fields_of E c) vs).
 Proof.
@@ -462,7 +460,7 @@ Definition ctor_type (cf : ctor) : tytag :=
   match cf with CfList => TyL | CfTuple k => TyT k | CfSet => TyS | CfFrozen => TyF end.
 
 Lemma rebuild_type cf items r :
-  rebuild_collection E cf items = Some r -> type_of r = ctor_type cf.
+  rebuild_collection E cf items = Ok r -> type_of r = ctor_type cf.
 Proof.
   unfold rebuild_collection. destruct cf as [|[|n|]| |]; cbn; intros H.
   - inversion H; reflexivity.
@@ -481,7 +479,7 @@ Proof. destruct v; try discriminate; reflexivity. Qed.
 (** With [retain_collection_types] every list / tuple / namedtuple / set /
     frozenset, at whatever depth it is converted, keeps its exact class ... *)
 Theorem retain_types_l : forall k flt df ser v r,
-  is_seq v = true -> asdict_anything E k true flt df ser v = Some r -> type_of r = type_of v.
+  is_seq v = true -> asdict_anything E k true flt df ser v = Ok r -> type_of r = type_of v.
 Proof.
   intros k flt df ser v r Hs H. rewrite <- (class_of_seq_type v Hs).
   destruct v; try discriminate; cbn [asdict_anything] in H;
@@ -491,7 +489,7 @@ Qed.
 (** ... without it, it becomes a list, unless it is (inside) a dict key, where it
     becomes a tuple. *)
 Theorem nonretain_types_l : forall k flt df ser v r,
-  is_seq v = true -> asdict_anything E k false flt df ser v = Some r ->
+  is_seq v = true -> asdict_anything E k false flt df ser v = Ok r ->
   type_of r = if k then TyT TkT else TyL.
 Proof.
   intros k flt df ser v r Hs H.
@@ -502,13 +500,13 @@ Qed.
 (** Members of a collection-valued key are converted as keys themselves. *)
 Theorem key_members_are_keys_l : forall flt df ser v xs r,
   (v = VL xs \/ (exists t, v = VT t xs) \/ v = VS xs \/ v = VF xs) ->
-  asdict_anything E true false flt df ser v = Some r ->
+  asdict_anything E true false flt df ser v = Ok r ->
   exists items, r = VT TkT items /\
-    Forall2 (fun x y => asdict_anything E true false flt df ser x = Some y) xs items.
+    Forall2 (fun x y => asdict_anything E true false flt df ser x = Ok y) xs items.
 Proof.
   intros flt df ser v xs r Hv H.
-  assert (H' : match seq_conv (asdict_anything E true false flt df ser) xs with
-               | Some items => Some (VT TkT items) | None => None end = Some r).
+  assert (H' : bind (seq_conv (asdict_anything E true false flt df ser) xs)
+                    (fun items => Ok (VT TkT items)) = Ok r).
   { destruct Hv as [-> | [[t ->] | [-> | ->]]]; exact H. }
   destruct (seq_conv _ xs) as [items|] eqn:Es; [|discriminate].
   inversion H'; subst. exists items. split; [reflexivity|]. now apply seq_conv_Forall2.
@@ -516,8 +514,8 @@ Qed.
 
 (** Field-level collections (the branch inside [asdict] itself). *)
 Theorem field_collection_types_l : forall rec_inst rec_any retain df ser c f v r,
-  is_seq v = true -> ser_apply ser (Some (c, fst f)) v = None ->
-  asdict_field E rec_inst rec_any true retain df ser c f v = Some r ->
+  is_seq v = true -> ser_apply ser (Some (c, fst f)) v = Ok None ->
+  asdict_field E rec_inst rec_any true retain df ser c f v = Ok r ->
   type_of r = if retain then type_of v else TyL.
 Proof.
   intros rec_inst rec_any retain df ser c f v r Hs Hser H. unfold asdict_field in H. rewrite Hser in H.
@@ -529,12 +527,11 @@ Qed.
 (** Dicts and nested instances come out of [dict_factory]. *)
 Theorem dict_factory_used_l : forall k retain flt df ser v r,
   (is_dict v || is_inst v) = true ->
-  asdict_anything E k retain flt df ser v = Some r -> type_of r = TyD df.
+  asdict_anything E k retain flt df ser v = Ok r -> type_of r = TyD df.
 Proof.
   intros k retain flt df ser v r Hd H. destruct v; try discriminate; cbn [asdict_anything] in H.
   - unfold asdict_body in H. destruct (fields_loop _ _ _ _); inversion H; reflexivity.
-  - destruct (pairs_conv _ _ _); [|discriminate]. unfold mk_dict in H.
-    destruct (forallb _ _); inversion H; reflexivity.
+  - destruct (pairs_conv _ _ _ _); inversion H; reflexivity.
 Qed.
 
 (** Where the serializer is applied: to every filter-passing field value before
@@ -542,13 +539,13 @@ Qed.
     not serialized a second time), and to every leaf inside collections. *)
 Theorem serializer_positions_l :
   (forall rec_inst rec_any recurse retain df ser c f v r,
-     ser_apply ser (Some (c, fst f)) v = Some r ->
-     asdict_field E rec_inst rec_any recurse retain df ser c f v = Some r) /\
+     ser_apply ser (Some (c, fst f)) v = Ok (Some r) ->
+     asdict_field E rec_inst rec_any recurse retain df ser c f v = Ok r) /\
   (forall rec_inst rec_any recurse retain df ser c f v,
-     ser_apply ser (Some (c, fst f)) v = None -> is_leaf v = true ->
-     asdict_field E rec_inst rec_any recurse retain df ser c f v = Some v) /\
+     ser_apply ser (Some (c, fst f)) v = Ok None -> is_leaf v = true ->
+     asdict_field E rec_inst rec_any recurse retain df ser c f v = Ok v) /\
   (forall k retain flt df ser v,
-     is_leaf v = true -> asdict_anything E k retain flt df ser v = Some (ser_value ser None v)).
+     is_leaf v = true -> asdict_anything E k retain flt df ser v = ser_value ser None v).
 Proof.
   split; [|split].
   - intros. unfold asdict_field. rewrite H. reflexivity.
@@ -558,17 +555,32 @@ Proof.
 Qed.
 
 (** [recurse=False]: the values are returned untouched. *)
-Theorem recurse_false_identity_l : forall retain flt df c vs,
+Theorem recurse_false_identity_l : forall retain flt df c vs r,
   NoDup (map fst (fields_of E c)) ->
-  asdict E false retain flt df None (VI c vs) =
-  Some (VD df (map (fun fv => (VStr (fst (fst fv)), snd fv)) (kept (passes flt) (fields_of E c) vs))).
+  asdict E false retain flt df None (VI c vs) = Ok r ->
+  r = VD df (map (fun fv => (VStr (fst (fst fv)), snd fv)) (kept (passes flt) (fields_of E c) vs)).
 Proof.
-  intros retain flt df c vs Hnd. unfold asdict, asdict_body.
-  rewrite (fields_loop_ext (passes flt) _ (fun _ v => Some v))
+  intros retain flt df c vs r Hnd H. unfold asdict, asdict_body in H.
+  rewrite (fields_loop_ext (passes flt) _ (fun _ v => Ok v)) in H
     by (apply Forall_forall; intros v _ f; reflexivity).
-  rewrite fields_loop_id. f_equal. rewrite record_nodup.
+  destruct (fields_loop _ _ _ _) as [out|] eqn:El; [|discriminate].
+  inversion H; subst; clear H. rewrite (fields_loop_id _ _ _ _ El). rewrite record_nodup.
   - unfold strkeys. rewrite map_map. reflexivity.
   - rewrite map_map. cbn. now apply kept_names_nodup.
+Qed.
+
+(** A filter that does not raise never makes [asdict recurse=False] fail. *)
+Theorem recurse_false_total_l : forall retain df c vs,
+  exists r, asdict E false retain None df None (VI c vs) = Ok r.
+Proof.
+  intros retain df c vs. unfold asdict, asdict_body.
+  rewrite (fields_loop_ext (passes None) _ (fun _ v => Ok v))
+    by (apply Forall_forall; intros v _ f; reflexivity).
+  assert (H : forall vs fs, exists out, fields_loop (passes None) (fun (_ : field) (v : val) => Ok v) fs vs = Ok out).
+  { induction vs0 as [|v r IH]; intros fs; [destruct fs; eexists; reflexivity|].
+    destruct fs as [|f fs']; [eexists; reflexivity|]. cbn. destruct (IH fs') as [out Ho].
+    rewrite Ho. eexists; reflexivity. }
+  destruct (H vs (fields_of E c)) as [out Ho]. rewrite Ho. eexists; reflexivity.
 Qed.
 
 End Theorems.
@@ -579,48 +591,46 @@ Section Astuple.
 Variable E : env.
 Variables (retain : bool) (tf : tfk).
 
-Definition astuple_field_spec (recurse : bool) (flt : option filter_fn) (v : val) : option val :=
-  if negb recurse then Some v else
+Definition astuple_field_spec (recurse : bool) (flt : option filter_fn) (v : val) : res val :=
+  if negb recurse then Ok v else
   match v with
   | VI _ _ => astuple_spec E true retain flt tf v
   | VL xs | VT _ xs | VS xs | VF xs =>
-      match all_some (map (fun j => match j with
-                                    | VI _ _ => astuple_spec E true retain flt tf j
-                                    | _ => Some j
-                                    end) xs) with
-      | Some items => rebuild_spec E retain PMember v items
-      | None => None
+      match all_ok (map (fun j => match j with
+                                  | VI _ _ => astuple_spec E true retain flt tf j
+                                  | _ => Ok j
+                                  end) xs) with
+      | Ok items => rebuild_spec E retain PMember v items
+      | Err e => Err e
       end
   | VD k kvs =>
-      match all_some (map (fun kv =>
+      match all_ok (map (fun kv =>
                match kv with
                | (a, b) =>
-                   match (match a with VI _ _ => astuple_spec E true retain None tf a | _ => Some a end),
-                         (match b with VI _ _ => astuple_spec E true retain None tf b | _ => Some b end) with
-                   | Some a', Some b' => Some (a', b')
-                   | _, _ => None
-                   end
+                   pair_spec E
+                     (match a with VI _ _ => astuple_spec E true retain None tf a | _ => Ok a end)
+                     (match b with VI _ _ => astuple_spec E true retain None tf b | _ => Ok b end)
                end) kvs) with
-      | Some ps => mk_dict E (if retain then k else DkD) ps
-      | None => None
+      | Ok ps => Ok (mk_dict (if retain then k else DkD) ps)
+      | Err e => Err e
       end
-  | _ => Some v
+  | _ => Ok v
   end.
 
 Lemma astuple_spec_unfold recurse flt c vs :
   astuple_spec E recurse retain flt tf (VI c vs) =
-  option_map (fun items => apply_tf tf (map snd items))
-    (fields_loop (passes flt) (fun _ v => astuple_field_spec recurse flt v) (fields_of E c) vs).
+  match fields_loop (passes flt) (fun _ v => astuple_field_spec recurse flt v) (fields_of E c) vs with
+  | Ok items => Ok (apply_tf tf (map snd items))
+  | Err e => Err e
+  end.
 Proof. reflexivity. Qed.
 
 Notation rec := (astuple_rec E retain tf true).
 
 Lemma astuple_rec_unfold recurse flt c vs :
   astuple_rec E retain tf recurse flt (VI c vs) =
-  match fields_loop (passes flt) (fun _ v => astuple_field E rec recurse retain flt v) (fields_of E c) vs with
-  | Some items => Some (apply_tf tf (map snd items))
-  | None => None
-  end.
+  bind (fields_loop (passes flt) (fun _ v => astuple_field E rec recurse retain flt v) (fields_of E c) vs)
+       (fun items => Ok (apply_tf tf (map snd items))).
 Proof. reflexivity. Qed.
 
 Definition t_agrees (v : val) : Prop :=
@@ -631,7 +641,7 @@ Definition t_agrees (v : val) : Prop :=
 Lemma member_agrees flt x :
   t_agrees x -> wf E x = true ->
   astuple_member (rec flt) x =
-  match x with VI _ _ => astuple_spec E true retain flt tf x | _ => Some x end.
+  match x with VI _ _ => astuple_spec E true retain flt tf x | _ => Ok x end.
 Proof.
   intros Hx Hwf. destruct x; try reflexivity. cbn [astuple_member]. exact (proj1 (Hx Hwf) flt).
 Qed.
@@ -645,25 +655,23 @@ Proof.
   - intros recurse flt.
     assert (Hgoal :
       (if recurse then
-         match seq_conv (astuple_member (rec flt)) xs with
-         | Some items => rebuild_collection E (if retain then class_of_seq v else CfList) items
-         | None => None
-         end
-       else Some v) =
-      (if negb recurse then Some v else
-       match all_some (map (fun j => match j with
-                                     | VI _ _ => astuple_spec E true retain flt tf j
-                                     | _ => Some j
-                                     end) xs) with
-       | Some items => rebuild_spec E retain PMember v items
-       | None => None
+         bind (seq_conv (astuple_member (rec flt)) xs)
+              (rebuild_collection E (if retain then class_of_seq v else CfList))
+       else Ok v) =
+      (if negb recurse then Ok v else
+       match all_ok (map (fun j => match j with
+                                   | VI _ _ => astuple_spec E true retain flt tf j
+                                   | _ => Ok j
+                                   end) xs) with
+       | Ok items => rebuild_spec E retain PMember v items
+       | Err e => Err e
        end)).
     { destruct recurse; [|reflexivity]. cbn [negb].
       pose proof (wf_seq_members E v xs Hv Hwf) as Hxs.
-      rewrite <- seq_conv_all_some.
+      rewrite <- seq_conv_all_ok.
       rewrite (seq_conv_ext (astuple_member (rec flt))
-                 (fun j => match j with VI _ _ => astuple_spec E true retain flt tf j | _ => Some j end)).
-      - destruct (seq_conv _ xs) as [items|] eqn:Es; [|reflexivity].
+                 (fun j => match j with VI _ _ => astuple_spec E true retain flt tf j | _ => Ok j end)).
+      - destruct (seq_conv _ xs) as [items|] eqn:Es; [|reflexivity]. cbn [bind].
         pose proof (rebuild_agree E retain false v xs items Hv Hwf (seq_conv_length _ _ _ Es)) as H.
         exact H.
       - apply forallb_Forall in Hxs. clear -HF Hxs.
@@ -699,24 +707,19 @@ Proof.
   - (* dict *)
     intros Hwf. split; [reflexivity|].
     intros [|] flt; [|reflexivity]. cbn [astuple_field astuple_field_spec negb].
-    rewrite pairs_conv_all_some.
+    rewrite pairs_conv_all_ok.
     assert (Hm : map (fun kv : val * val => let (k, x) := kv in
-                        match astuple_member (rec None) k, astuple_member (rec None) x with
-                        | Some a, Some b => Some (a, b)
-                        | _, _ => None
-                        end) kvs =
+                        pair_spec E (astuple_member (rec None) k) (astuple_member (rec None) x)) kvs =
                  map (fun kv : val * val => let (a, b) := kv in
-                        match (match a with VI _ _ => astuple_spec E true retain None tf a | _ => Some a end),
-                              (match b with VI _ _ => astuple_spec E true retain None tf b | _ => Some b end) with
-                        | Some a', Some b' => Some (a', b')
-                        | _, _ => None
-                        end) kvs).
+                        pair_spec E
+                          (match a with VI _ _ => astuple_spec E true retain None tf a | _ => Ok a end)
+                          (match b with VI _ _ => astuple_spec E true retain None tf b | _ => Ok b end)) kvs).
     { cbn in Hwf. apply forallb_Forall in Hwf. clear -IH Hwf.
       induction IH as [|[a b] r [Ha Hb] _ IHr]; [reflexivity|].
       inversion Hwf as [|? ? Hab Hr]; subst. apply andb_true_iff in Hab as [Wa Wb].
       cbn [map]. cbn in Ha, Hb. rewrite (member_agrees None a Ha Wa), (member_agrees None b Hb Wb).
       f_equal. now apply IHr. }
-    rewrite Hm. reflexivity.
+    rewrite Hm. destruct (all_ok _); reflexivity.
   - intros _. split; [reflexivity | intros [|] flt; reflexivity].
   - intros _. split; [reflexivity | intros [|] flt; reflexivity].
 Qed.
@@ -736,24 +739,30 @@ Proof.
   rewrite (fields_loop_ext (passes flt) _ (fun _ v => astuple_field_spec E retain tf recurse flt v)).
   - destruct (fields_loop _ _ _ _); reflexivity.
   - cbn in Hwf. apply forallb_Forall in Hwf.
-    induction Hwf as [|x r Hx _ IH]; constructor; [|exact IH].
+    induction Hwf as [|x r Hx _ IH]; [constructor|]. constructor; [|exact IH].
     intros _. exact (proj2 (astuple_agrees E retain tf x Hx) recurse flt).
 Qed.
 
 (** [astuple] yields positionally the values [asdict] yields by name
     (shallow conversion, no serializer). *)
-Theorem astuple_corresponds_l : forall retain flt df tf c vs,
+Theorem astuple_corresponds_l : forall retain flt df tf c vs r,
   NoDup (map fst (fields_of E c)) ->
+  asdict E false retain flt df None (VI c vs) = Ok r ->
   exists items,
-    asdict E false retain flt df None (VI c vs) = Some (VD df items) /\
-    astuple E false retain flt tf (VI c vs) = Some (apply_tf tf (map snd items)).
+    asdict E false retain flt df None (VI c vs) = Ok (VD df items) /\
+    astuple E false retain flt tf (VI c vs) = Ok (apply_tf tf (map snd items)).
 Proof.
-  intros retain flt df tf c vs Hnd. eexists. split.
-  - apply recurse_false_identity_l; assumption.
-  - unfold astuple. rewrite astuple_rec_unfold.
-    rewrite (fields_loop_ext (passes flt) _ (fun _ v => Some v))
-      by (apply Forall_forall; intros v _ f; reflexivity).
-    rewrite fields_loop_id. rewrite !map_map. reflexivity.
+  intros retain flt df tf c vs r Hnd H.
+  pose proof (recurse_false_identity_l E retain flt df c vs r Hnd H) as Hr. subst r.
+  eexists. split; [exact H|].
+  unfold astuple. rewrite astuple_rec_unfold.
+  rewrite (fields_loop_ext (passes flt) _ (fun _ v => Ok v))
+    by (apply Forall_forall; intros v _ f; reflexivity).
+  unfold asdict, asdict_body in H.
+  rewrite (fields_loop_ext (passes flt) _ (fun _ v => Ok v)) in H
+    by (apply Forall_forall; intros v _ f; reflexivity).
+  destruct (fields_loop _ _ _ _) as [out|] eqn:El; [|discriminate].
+  cbn [bind]. rewrite (fields_loop_id _ _ _ _ El). rewrite !map_map. reflexivity.
 Qed.
 
 (** ** Round trip [C( **asdict(x) )] for flat classes with public names. *)
@@ -790,9 +799,12 @@ Proof.
     rewrite map_app. cbn. rewrite <- app_assoc. exact Hnd.
 Qed.
 
-Lemma kept_all fs vs : kept (passes None) fs vs = combine fs vs.
+Lemma fields_loop_all : forall (fs : list field) (vs : list val),
+  fields_loop (passes None) (fun (_ : field) (v : val) => Ok v) fs vs =
+  Ok (map (fun fv : field * val => (fst (fst fv), snd fv)) (combine fs vs)).
 Proof.
-  unfold kept. induction (combine fs vs) as [|x r IH]; [reflexivity|]. cbn [filter passes]. f_equal. exact IH.
+  intros fs vs. revert fs. induction vs as [|v r IH]; intros fs; [destruct fs; reflexivity|].
+  destruct fs as [|f fs']; [reflexivity|]. cbn. rewrite IH. reflexivity.
 Qed.
 
 Lemma combine_names : forall (fs : list field) (vs : list val),
@@ -816,14 +828,14 @@ Theorem asdict_roundtrip_l : forall c vs,
   (forall f, In f (fields_of E c) -> lstrip_us (fst f) = fst f) ->
   List.length vs = List.length (fields_of E c) ->
   Forall (fun v => is_leaf v = true) vs ->
-  roundtrip E c vs = Some (VI c vs).
+  roundtrip E c vs = Ok (VI c vs).
 Proof.
   intros c vs Hnd Hpub Hlen Hleaf. unfold roundtrip, asdict, asdict_body.
-  rewrite (fields_loop_ext (passes None) _ (fun _ v => Some v)).
+  rewrite (fields_loop_ext (passes None) _ (fun _ v => Ok v)).
   2:{ clear -Hleaf. induction Hleaf as [|v r Hv _ IH]; [constructor|]. constructor; [|exact IH].
       intros f. unfold asdict_field. cbn [ser_apply].
       destruct v; try discriminate; reflexivity. }
-  rewrite fields_loop_id, kept_all, combine_names.
+  rewrite (fields_loop_all (fields_of E c) vs). cbn [bind]. rewrite combine_names.
   set (ns := map fst (fields_of E c)).
   assert (Hcn : map fst (combine ns vs) = ns).
   { unfold ns. assert (Hl2 : List.length vs = List.length (map fst (fields_of E c))) by (rewrite map_length; exact Hlen). clear -Hl2. revert vs Hl2.
@@ -843,11 +855,12 @@ Proof.
   { etransitivity; [apply f_equal; apply (lookup_fields (strkeys (combine ns vs)) (fields_of E c) Hpub)|].
     apply (lookup_all ns vs []); [unfold ns; now rewrite map_length | exact Hnd]. }
   cbn beta iota. unfold construct. rewrite Hexp.
-  match goal with |- option_map _ ?t = _ => replace t with (Some vs) by (symmetry; exact Hall) end.
+  match goal with |- context [all_some ?l] => replace (all_some l) with (Some vs) by (symmetry; exact Hall) end.
   reflexivity.
 Qed.
 
 End Theorems2.
+
 
 (** ** No attrs instance survives the conversion, at any depth (instances the
     serializer hid inside an opaque value excepted). *)
@@ -863,7 +876,7 @@ Fixpoint inst_free (v : val) : bool :=
 Section NoInstance.
 Variable E : env.
 Variables (retain : bool) (flt : option filter_fn) (df : dkind) (ser : option ser_fn).
-Hypothesis ser_opaque : forall w v r, ser_apply ser w v = Some r -> inst_free r = true.
+Hypothesis ser_opaque : forall w v r, ser_apply ser w v = Ok (Some r) -> inst_free r = true.
 
 Definition pairs_free (d : list (val * val)) : Prop :=
   Forall (fun kv => inst_free (fst kv) = true /\ inst_free (snd kv) = true) d.
@@ -895,10 +908,9 @@ Proof.
   apply G. constructor.
 Qed.
 
-Lemma mk_dict_free dk ps r : pairs_free ps -> mk_dict E dk ps = Some r -> inst_free r = true.
+Lemma mk_dict_free dk ps : pairs_free ps -> inst_free (mk_dict dk ps) = true.
 Proof.
-  intros H Hm. unfold mk_dict in Hm. destruct (forallb _ ps); [|discriminate].
-  inversion Hm; subst. cbn. apply pairs_free_forallb. now apply dict_of_pairs_free.
+  intros H. unfold mk_dict. cbn. apply pairs_free_forallb. now apply dict_of_pairs_free.
 Qed.
 
 Lemma dedup_acc_in : forall items acc x,
@@ -918,7 +930,7 @@ Proof.
 Qed.
 
 Lemma rebuild_free cf items r :
-  forallb inst_free items = true -> rebuild_collection E cf items = Some r -> inst_free r = true.
+  forallb inst_free items = true -> rebuild_collection E cf items = Ok r -> inst_free r = true.
 Proof.
   intros Hi. unfold rebuild_collection. destruct cf as [|[|n|]| |]; cbn; intros H.
   - inversion H; subst; exact Hi.
@@ -931,39 +943,40 @@ Proof.
     inversion H; subst. cbn. now apply dedup_free.
 Qed.
 
-Lemma seq_conv_free (f : val -> option val) : forall xs items,
-  Forall (fun x => forall r, f x = Some r -> inst_free r = true) xs ->
-  seq_conv f xs = Some items -> forallb inst_free items = true.
+Lemma seq_conv_free (f : val -> res val) : forall xs items,
+  Forall (fun x => forall r, f x = Ok r -> inst_free r = true) xs ->
+  seq_conv f xs = Ok items -> forallb inst_free items = true.
 Proof.
   induction xs as [|x r IH]; intros items HF H; cbn in H.
   - inversion H; reflexivity.
   - inversion HF as [|? ? Hx Hr]; subst.
-    destruct (f x) eqn:Ex; [|discriminate]. destruct (seq_conv f r) eqn:Es; [|discriminate].
+    destruct (f x) eqn:Ex; [|discriminate]. cbn in H. destruct (seq_conv f r) eqn:Es; [|discriminate].
     inversion H; subst. cbn. rewrite (Hx _ eq_refl), (IH _ Hr eq_refl). reflexivity.
 Qed.
 
-Lemma pairs_conv_free (fk fv : val -> option val) : forall kvs ps,
-  Forall (fun kv => (forall r, fk (fst kv) = Some r -> inst_free r = true) /\
-                    (forall r, fv (snd kv) = Some r -> inst_free r = true)) kvs ->
-  pairs_conv fk fv kvs = Some ps -> pairs_free ps.
+Lemma pairs_conv_free (fk fv : val -> res val) : forall kvs ps,
+  Forall (fun kv => (forall r, fk (fst kv) = Ok r -> inst_free r = true) /\
+                    (forall r, fv (snd kv) = Ok r -> inst_free r = true)) kvs ->
+  pairs_conv E fk fv kvs = Ok ps -> pairs_free ps.
 Proof.
   induction kvs as [|[k x] r IH]; intros ps HF H; cbn in H.
   - inversion H; constructor.
   - inversion HF as [|? ? [Hk Hx] Hr]; subst. cbn in Hk, Hx.
-    destruct (fk k) eqn:Ek; [|discriminate]. destruct (fv x) eqn:Ex; [|discriminate].
-    destruct (pairs_conv fk fv r) eqn:Es; [|discriminate].
+    destruct (fk k) eqn:Ek; [|discriminate]. cbn in H. destruct (fv x) eqn:Ex; [|discriminate]. cbn in H.
+    destruct (hashable E a); [|discriminate].
+    destruct (pairs_conv E fk fv r) eqn:Es; [|discriminate].
     inversion H; subst. constructor; [split; cbn; eauto | eapply IH; eauto].
 Qed.
 
-Lemma fields_loop_free {B} keep (conv : field -> val -> option B) (Q : B -> Prop) : forall vs fs out,
-  Forall (fun v => forall f r, conv f v = Some r -> Q r) vs ->
-  fields_loop keep conv fs vs = Some out -> Forall (fun nv => Q (snd nv)) out.
+Lemma fields_loop_free {B} keep (conv : field -> val -> res B) (Q : B -> Prop) : forall vs fs out,
+  Forall (fun v => forall f r, conv f v = Ok r -> Q r) vs ->
+  fields_loop keep conv fs vs = Ok out -> Forall (fun nv => Q (snd nv)) out.
 Proof.
   induction vs as [|v r IH]; intros fs out HF H.
   - destruct fs; cbn in H; inversion H; constructor.
   - destruct fs as [|f fs']; cbn in H; [inversion H; constructor|].
-    inversion HF as [|? ? Hv Hr]; subst. destruct (keep f v).
-    + destruct (conv f v) eqn:Ec; [|discriminate].
+    inversion HF as [|? ? Hv Hr]; subst. destruct (keep f v) as [[|]|]; cbn in H; [| |discriminate].
+    + destruct (conv f v) eqn:Ec; [|discriminate]. cbn in H.
       destruct (fields_loop keep conv fs' r) eqn:El; [|discriminate].
       inversion H; subst. constructor; [cbn; eauto | eapply IH; eauto].
     + eapply IH; eauto.
@@ -973,21 +986,21 @@ Notation any k := (asdict_anything E k retain flt df ser).
 Notation fld := (asdict_field E (any false) (fun k => any k) true retain df ser).
 
 Definition frees (v : val) : Prop :=
-  (forall k r, any k v = Some r -> inst_free r = true) /\
-  (forall c f r, fld c f v = Some r -> inst_free r = true).
+  (forall k r, any k v = Ok r -> inst_free r = true) /\
+  (forall c f r, fld c f v = Ok r -> inst_free r = true).
 
 Lemma frees_leaf v : is_leaf v = true -> frees v.
 Proof.
   intros Hl. split.
-  - intros k r H. assert (H' : Some (ser_value ser None v) = Some r)
+  - intros k r H. assert (H' : ser_value ser None v = Ok r)
       by (destruct v; try discriminate; exact H).
-    inversion H'; subst. unfold ser_value. destruct (ser_apply ser None v) eqn:Es.
-    + eapply ser_opaque; eauto.
-    + destruct v; try discriminate; reflexivity.
+    unfold ser_value in H'. destruct (ser_apply ser None v) as [[x|]|] eqn:Es; try discriminate.
+    + inversion H'; subst. eapply ser_opaque; eauto.
+    + inversion H'; subst. destruct r; try discriminate; reflexivity.
   - intros c f r H. unfold asdict_field in H.
-    destruct (ser_apply ser (Some (c, fst f)) v) eqn:Es.
+    destruct (ser_apply ser (Some (c, fst f)) v) as [[x|]|] eqn:Es; try discriminate.
     + inversion H; subst. eapply ser_opaque; eauto.
-    + assert (H' : Some v = Some r) by (destruct v; try discriminate; exact H).
+    + assert (H' : Ok v = Ok r) by (destruct v; try discriminate; exact H).
       inversion H'; subst. destruct r; try discriminate; reflexivity.
 Qed.
 
@@ -996,23 +1009,21 @@ Lemma frees_seq (v : val) (xs : list val) :
   Forall frees xs -> frees v.
 Proof.
   intros Hv HF.
-  assert (Hmem : forall k, Forall (fun x => forall r, any k x = Some r -> inst_free r = true) xs).
+  assert (Hmem : forall k, Forall (fun x => forall r, any k x = Ok r -> inst_free r = true) xs).
   { intros k. clear Hv. induction HF as [|x r [Hx _] _ IH]; [constructor|]. constructor; [apply Hx | exact IH]. }
   split.
   - intros k r H.
-    assert (H' : match seq_conv (any k) xs with
-                 | Some items => rebuild_collection E (if retain then class_of_seq v
-                                   else if k then CfTuple TkT else CfList) items
-                 | None => None end = Some r)
+    assert (H' : bind (seq_conv (any k) xs)
+                      (rebuild_collection E (if retain then class_of_seq v
+                                             else if k then CfTuple TkT else CfList)) = Ok r)
       by (destruct Hv as [-> | [[t ->] | [-> | ->]]]; exact H).
     destruct (seq_conv (any k) xs) as [items|] eqn:Es; [|discriminate].
     eapply rebuild_free; [|exact H']. eapply seq_conv_free; [apply Hmem | exact Es].
   - intros c f r H. unfold asdict_field in H.
-    destruct (ser_apply ser (Some (c, fst f)) v) eqn:Es.
+    destruct (ser_apply ser (Some (c, fst f)) v) as [[x|]|] eqn:Es; try discriminate.
     { inversion H; subst. eapply ser_opaque; eauto. }
-    assert (H' : match seq_conv (any false) xs with
-                 | Some items => rebuild_collection E (if retain then class_of_seq v else CfList) items
-                 | None => None end = Some r)
+    assert (H' : bind (seq_conv (any false) xs)
+                      (rebuild_collection E (if retain then class_of_seq v else CfList)) = Ok r)
       by (destruct Hv as [-> | [[t ->] | [-> | ->]]]; exact H).
     destruct (seq_conv (any false) xs) as [items|] eqn:Ec; [|discriminate].
     eapply rebuild_free; [|exact H']. eapply seq_conv_free; [apply Hmem | exact Ec].
@@ -1023,9 +1034,9 @@ Proof.
   induction v as [t i | s | c fs IH | xs IH | t xs IH | xs IH | xs IH | dk kvs IH | w x IH | ]
     using val_ind'; try (apply frees_leaf; reflexivity).
   - (* instance *)
-    assert (Hany : forall k r, any k (VI c fs) = Some r -> inst_free r = true).
+    assert (Hany : forall k r, any k (VI c fs) = Ok r -> inst_free r = true).
     { intros k r H. cbn [asdict_anything] in H. unfold asdict_body in H.
-      destruct (fields_loop _ _ _ _) as [assigns|] eqn:El; [|discriminate].
+      destruct (fields_loop _ _ _ _) as [assigns|] eqn:El; [|discriminate]. cbn [bind] in H.
       inversion H; subst. unfold record. cbn [inst_free]. apply pairs_free_forallb.
       apply dict_of_pairs_free.
       assert (Hout : Forall (fun nv : string * val => inst_free (snd nv) = true) assigns).
@@ -1034,7 +1045,7 @@ Proof.
       clear -Hout. induction Hout as [|[n x] r Hx _ IHr]; [constructor|]. constructor; [split; [reflexivity | exact Hx] | exact IHr]. }
     split; [exact Hany|].
     intros c0 f r H. unfold asdict_field in H.
-    destruct (ser_apply ser (Some (c0, fst f)) (VI c fs)) eqn:Es.
+    destruct (ser_apply ser (Some (c0, fst f)) (VI c fs)) as [[x|]|] eqn:Es; try discriminate.
     + inversion H; subst. eapply ser_opaque; eauto.
     + eapply Hany; eauto.
   - apply (frees_seq (VL xs) xs); auto.
@@ -1042,17 +1053,17 @@ Proof.
   - apply (frees_seq (VS xs) xs); auto.
   - apply (frees_seq (VF xs) xs); auto.
   - (* dict *)
-    assert (Hd : forall r, match pairs_conv (any true) (any false) kvs with
-                           | Some ps => mk_dict E df ps | None => None end = Some r ->
+    assert (Hd : forall r, bind (pairs_conv E (any true) (any false) kvs)
+                                (fun ps => Ok (mk_dict df ps)) = Ok r ->
                            inst_free r = true).
-    { intros r H. destruct (pairs_conv _ _ kvs) as [ps|] eqn:Ep; [|discriminate].
-      eapply mk_dict_free; [|exact H]. eapply pairs_conv_free; [|exact Ep].
+    { intros r H. destruct (pairs_conv _ _ _ kvs) as [ps|] eqn:Ep; [|discriminate].
+      inversion H; subst. apply mk_dict_free. eapply pairs_conv_free; [|exact Ep].
       clear -IH. induction IH as [|[a b] r [[Ha _] [Hb _]] _ IHr]; [constructor|]. constructor; [|exact IHr].
       split; cbn; [apply Ha | apply Hb]. }
     split.
     + intros k r H. apply Hd. exact H.
     + intros c f r H. unfold asdict_field in H.
-      destruct (ser_apply ser (Some (c, fst f)) (VD dk kvs)) eqn:Es.
+      destruct (ser_apply ser (Some (c, fst f)) (VD dk kvs)) as [[x|]|] eqn:Es; try discriminate.
       * inversion H; subst. eapply ser_opaque; eauto.
       * apply Hd. exact H.
 Qed.
@@ -1060,12 +1071,130 @@ Qed.
 End NoInstance.
 
 Theorem no_instance_left_l : forall E retain flt df ser,
-  (forall w v r, ser_apply ser w v = Some r -> inst_free r = true) ->
-  forall inst r, asdict E true retain flt df ser inst = Some r -> inst_free r = true.
+  (forall w v r, ser_apply ser w v = Ok (Some r) -> inst_free r = true) ->
+  forall inst r, asdict E true retain flt df ser inst = Ok r -> inst_free r = true.
 Proof.
   intros E retain flt df ser Hs inst r H. destruct inst; try discriminate.
   exact (proj1 (anything_frees E retain flt df ser Hs (VI c fs)) false r H).
 Qed.
+
+
+(** ** Exceptions propagate unchanged; there is no partial result.
+
+    An exception raised by the filter, by the serializer, or while hashing a
+    converted member / key is the outcome of the whole call, whatever the class
+    of the enclosing collections (a tuple rebuilt through [_rebuild_collection]
+    included), at any depth: each lemma is stated for arbitrary values, so it
+    applies again to the enclosing level. *)
+
+Lemma seq_conv_first_error {A B} (f : A -> res B) : forall pre x post e,
+  Forall (fun p => exists r, f p = Ok r) pre -> f x = Err e ->
+  seq_conv f (pre ++ x :: post) = Err e.
+Proof.
+  induction pre as [|p r IH]; intros x post e HF Hx; cbn.
+  - rewrite Hx. reflexivity.
+  - inversion HF as [|? ? [y Hy] Hr]; subst. rewrite Hy. cbn. rewrite (IH x post e Hr Hx). reflexivity.
+Qed.
+
+Lemma fields_loop_first_error {B} keep (conv : field -> val -> res B) : forall fs1 vs1 f v fs2 vs2 e,
+  Forall2 (fun f0 v0 => keep f0 v0 = Ok false \/ (keep f0 v0 = Ok true /\ exists x, conv f0 v0 = Ok x)) fs1 vs1 ->
+  (keep f v = Err e \/ (keep f v = Ok true /\ conv f v = Err e)) ->
+  fields_loop keep conv (fs1 ++ f :: fs2) (vs1 ++ v :: vs2) = Err e.
+Proof.
+  intros fs1 vs1 f v fs2 vs2 e HF Hx. induction HF as [|f0 v0 fr vr H0 _ IH]; cbn.
+  - destruct Hx as [Hk | [Hk Hc]]; rewrite Hk; cbn; [reflexivity|]. rewrite Hc. reflexivity.
+  - destruct H0 as [Hk | [Hk [x Hc]]]; rewrite Hk; cbn.
+    + exact IH.
+    + rewrite Hc. cbn. rewrite IH. reflexivity.
+Qed.
+
+Section Errors.
+Variable E : env.
+Variables (retain : bool) (flt : option filter_fn) (df : dkind) (ser : option ser_fn).
+Notation any k := (asdict_anything E k retain flt df ser).
+
+(** the serializer raising on a field value *)
+Theorem serializer_error_propagates_l : forall rec_inst rec_any recurse c f v e,
+  ser_apply ser (Some (c, fst f)) v = Err e ->
+  asdict_field E rec_inst rec_any recurse retain df ser c f v = Err e.
+Proof. intros. unfold asdict_field. rewrite H. reflexivity. Qed.
+
+(** the serializer raising on a leaf inside a collection *)
+Theorem leaf_error_propagates_l : forall k v e,
+  is_leaf v = true -> ser_apply ser None v = Err e -> any k v = Err e.
+Proof.
+  intros k v e Hl Hs. assert (H : any k v = ser_value ser None v) by (destruct v; try discriminate; reflexivity).
+  rewrite H. unfold ser_value. rewrite Hs. reflexivity.
+Qed.
+
+(** a member whose conversion raises: the collection raises the same exception,
+    whatever it would have been rebuilt as *)
+Theorem member_error_propagates_l : forall k v pre x post e,
+  (v = VL (pre ++ x :: post) \/ (exists t, v = VT t (pre ++ x :: post)) \/
+   v = VS (pre ++ x :: post) \/ v = VF (pre ++ x :: post)) ->
+  Forall (fun p => exists r, any k p = Ok r) pre -> any k x = Err e ->
+  any k v = Err e.
+Proof.
+  intros k v pre x post e Hv HF Hx.
+  destruct Hv as [-> | [[t ->] | [-> | ->]]]; cbn [asdict_anything];
+    rewrite (seq_conv_first_error _ pre x post e HF Hx); reflexivity.
+Qed.
+
+(** ... and a result exists only if every member was converted *)
+Theorem result_needs_all_members_l : forall k v xs r,
+  (v = VL xs \/ (exists t, v = VT t xs) \/ v = VS xs \/ v = VF xs) ->
+  any k v = Ok r -> Forall (fun x => exists y, any k x = Ok y) xs.
+Proof.
+  intros k v xs r Hv H.
+  assert (H' : exists items, seq_conv (any k) xs = Ok items).
+  { destruct Hv as [-> | [[t ->] | [-> | ->]]]; cbn [asdict_anything] in H;
+      (destruct (seq_conv (any k) xs) as [items|]; [eexists; reflexivity | discriminate]). }
+  destruct H' as [items Hi]. apply seq_conv_Forall2 in Hi.
+  clear Hv H. induction Hi as [|x y xs' ys' Hxy _ IH]; [constructor|]. constructor; [eexists; exact Hxy | exact IH].
+Qed.
+
+(** a dict: an exception from converting a key or a value, or an unhashable
+    converted key, is the outcome *)
+Theorem dict_error_propagates_l : forall k dk kk x post e,
+  (any true kk = Err e \/
+   (exists a, any true kk = Ok a /\ any false x = Err e) \/
+   (exists a b, any true kk = Ok a /\ any false x = Ok b /\ hashable E a = false /\ e = ETypeError)) ->
+  any k (VD dk ((kk, x) :: post)) = Err e.
+Proof.
+  intros k dk kk x post e H. cbn [asdict_anything pairs_conv].
+  destruct H as [H | [[a [Ha Hx]] | [a [b [Ha [Hb [Hh ->]]]]]]].
+  - rewrite H. reflexivity.
+  - rewrite Ha. cbn. rewrite Hx. reflexivity.
+  - rewrite Ha. cbn. rewrite Hb. cbn. rewrite Hh. reflexivity.
+Qed.
+
+(** the field loop of [asdict]: the filter or the conversion of the first failing
+    field decides *)
+Theorem field_error_propagates_l : forall recurse c fs1 vs1 f v fs2 vs2 e,
+  fields_of E c = fs1 ++ f :: fs2 ->
+  Forall2 (fun f0 v0 => passes flt f0 v0 = Ok false \/
+             (passes flt f0 v0 = Ok true /\
+              exists x, asdict_field E (any false) (fun k => any k) recurse retain df ser c f0 v0 = Ok x))
+          fs1 vs1 ->
+  (passes flt f v = Err e \/
+   (passes flt f v = Ok true /\
+    asdict_field E (any false) (fun k => any k) recurse retain df ser c f v = Err e)) ->
+  asdict E recurse retain flt df ser (VI c (vs1 ++ v :: vs2)) = Err e.
+Proof.
+  intros recurse c fs1 vs1 f v fs2 vs2 e Hf HF Hx. unfold asdict, asdict_body. rewrite Hf.
+  rewrite (fields_loop_first_error _ _ fs1 vs1 f v fs2 vs2 e HF Hx). reflexivity.
+Qed.
+
+(** the same loop in [astuple] *)
+Theorem astuple_filter_error_propagates_l : forall recurse tf c f v fs2 vs2 e,
+  fields_of E c = f :: fs2 -> passes flt f v = Err e ->
+  astuple E recurse retain flt tf (VI c (v :: vs2)) = Err e.
+Proof.
+  intros recurse tf c f v fs2 vs2 e Hf Hx. unfold astuple. cbn [astuple_rec]. rewrite Hf.
+  cbn [fields_loop]. rewrite Hx. reflexivity.
+Qed.
+
+End Errors.
 
 (** ** Non-vacuity: a concrete environment and nested value on which the
     premises of the theorems hold and the functions really convert. *)
@@ -1095,7 +1224,7 @@ Proof. reflexivity. Qed.
 
 Example ex_asdict :
   asdict exE true false None DkD None exV =
-  Some (VD DkD
+  Ok (VD DkD
           [(VStr "x", VL [VD DkD [(VStr "a", VSc 0 1)];
                           VL [VSc 0 2; VD DkD [(VStr "a", VStr "s")]]]);
            (VStr "_y", VD DkD [(VT TkT [VSc 0 1; VT TkT [VSc 0 2]],
@@ -1104,7 +1233,7 @@ Proof. reflexivity. Qed.
 
 Example ex_asdict_retain :
   asdict exE true true None DkS None exV =
-  Some (VD DkS
+  Ok (VD DkS
           [(VStr "x", VL [VD DkS [(VStr "a", VSc 0 1)];
                           VT (TkN 0) [VSc 0 2; VD DkS [(VStr "a", VStr "s")]]]);
            (VStr "_y", VD DkS [(VT TkT [VSc 0 1; VF [VSc 0 2]],
@@ -1113,15 +1242,15 @@ Proof. reflexivity. Qed.
 
 Example ex_astuple :
   astuple exE true true None TfTuple exV =
-  Some (VT TkT [VL [VT TkT [VSc 0 1]; VT (TkN 0) [VSc 0 2; VI 1 [VStr "s"]]];
+  Ok (VT TkT [VL [VT TkT [VSc 0 1]; VT (TkN 0) [VSc 0 2; VI 1 [VStr "s"]]];
                 VD DkO [(VT TkT [VSc 0 1; VF [VSc 0 2]], VT TkT [VS [VSc 0 3]])]]).
 Proof. reflexivity. Qed.
 
 (** filter drops [x]; the serializer wraps leaves only (inside the key too). *)
 Example ex_filter_serializer :
-  asdict exE true false (Some (fun f _ => negb (String.eqb (fst f) "x"))) DkD
-         (Some (fun w v => if is_leaf v then Some (VW w v) else None)) exV =
-  Some (VD DkD
+  asdict exE true false (Some (fun f _ => Ok (negb (String.eqb (fst f) "x")))) DkD
+         (Some (fun w v => Ok (if is_leaf v then Some (VW w v) else None))) exV =
+  Ok (VD DkD
           [(VStr "_y", VD DkD [(VT TkT [VW None (VSc 0 1); VT TkT [VW None (VSc 0 2)]],
                                 VD DkD [(VStr "a", VL [VW None (VSc 0 3)])])])]).
 Proof. reflexivity. Qed.
@@ -1129,15 +1258,36 @@ Proof. reflexivity. Qed.
 (** Outside the property's domain: an instance inside a set becomes an
     unhashable dict — TypeError. *)
 Example ex_instance_in_set_raises :
-  asdict exE true true None DkD None (VI 1 [VS [VI 2 []]]) = None.
+  asdict exE true true None DkD None (VI 1 [VS [VI 2 []]]) = Err ETypeError.
 Proof. reflexivity. Qed.
 
-Example ex_roundtrip : roundtrip exE 1 [VSc 0 7] = Some (VI 1 [VSc 0 7]).
+Example ex_roundtrip : roundtrip exE 1 [VSc 0 7] = Ok (VI 1 [VSc 0 7]).
 Proof. reflexivity. Qed.
 
 (** The "public names" premise of the round trip is needed: the key of a
     private field is its name, the init argument its alias. *)
-Example ex_roundtrip_private_name : roundtrip exE 0 [VSc 0 7; VSc 0 8] = None.
+Example ex_roundtrip_private_name : roundtrip exE 0 [VSc 0 7; VSc 0 8] = Err ETypeError.
+Proof. reflexivity. Qed.
+
+(** A serializer that rejects one leaf (scalar 9) with a user exception, two levels
+    down inside a tuple inside a list, with retain_collection_types: the exception
+    is the outcome (no empty tuple, no partial mapping). *)
+Example ex_nested_error_propagates :
+  asdict exE true true None DkD
+         (Some (fun _ v => match v with VSc 0 9 => Err (EUser 7) | _ => Ok None end))
+         (VI 1 [VL [VT TkT [VSc 0 1; VSc 0 9; VSc 0 3]]]) = Err (EUser 7).
+Proof. reflexivity. Qed.
+
+(** The same with a TypeError from hashing: a frozenset of instances inside a
+    nested tuple. *)
+Example ex_nested_typeerror_propagates :
+  asdict exE true true None DkD None (VI 1 [VL [VT TkT [VSc 0 1; VF [VI 2 []]; VSc 0 3]]]) = Err ETypeError.
+Proof. reflexivity. Qed.
+
+(** A filter raising on a field of an instance inside a key tuple. *)
+Example ex_filter_error_propagates :
+  asdict exE true false (Some (fun f v => match v with VSc 2 _ => Err (EUser 1) | _ => Ok true end)) DkD None
+         (VI 1 [VD DkD [(VT TkT [VSc 0 1; VI 1 [VSc 2 0]], VSc 0 0)]]) = Err (EUser 1).
 Proof. reflexivity. Qed.
 
 End Ex.
@@ -1202,14 +1352,14 @@ Proof.
 Qed.
 
 Theorem check_case_exact_l : forall c r,
-  check_case c = true -> run_faithful c = Some r -> set_free r = true ->
-  c_seen c = Some r /\ run_ideal c = Some r.
+  check_case c = true -> run_faithful c = Ok r -> set_free r = true ->
+  c_seen c = Ok r /\ run_ideal c = Ok r.
 Proof.
   intros c r H Hf Hs. unfold check_case in H. apply andb_true_iff in H as [H1 H2].
-  rewrite Hf in H1. unfold res_eqb, option_eqb in H1.
+  rewrite Hf in H1. unfold res_eqb in H1.
   destruct (c_seen c) as [s|] eqn:Es; [|discriminate].
   apply (val_eqb_exact_l r Hs) in H1. subst s. split; [reflexivity|].
-  unfold res_eqb, option_eqb in H2. destruct (run_ideal c) as [i|]; [|discriminate].
+  unfold res_eqb in H2. destruct (run_ideal c) as [i|]; [|discriminate].
   (* val_eqb i r with r set-free: compare structurally from the other side *)
   assert (Hsym : forall a, set_free a = true -> forall b, val_eqb b a = true -> b = a).
   { clear. induction a as [t i | s | c fs IH | xs IH | t xs IH | xs IH | xs IH | dk kvs IH | w x IH | ]
@@ -1241,4 +1391,19 @@ Proof.
         apply andb_true_iff in H1 as [A B]. apply Nat.eqb_eq in A. apply String.eqb_eq in B. now subst.
       + now apply IH. }
   f_equal. now apply Hsym.
+Qed.
+
+Lemma exc_eqb_eq a b : exc_eqb a b = true -> a = b.
+Proof. destruct a, b; cbn; try discriminate; try reflexivity. intros H. apply Nat.eqb_eq in H. now subst. Qed.
+
+(** ... and when the model says an exception comes out, a passing case means the
+    implementation raised exactly that exception class. *)
+Theorem check_case_error_exact_l : forall c e,
+  check_case c = true -> run_faithful c = Err e -> c_seen c = Err e /\ run_ideal c = Err e.
+Proof.
+  intros c e H Hf. unfold check_case in H. apply andb_true_iff in H as [H1 H2].
+  rewrite Hf in H1. unfold res_eqb in H1. destruct (c_seen c) as [s|e'] eqn:Es; [discriminate|].
+  apply exc_eqb_eq in H1. subst e'. split; [reflexivity|].
+  unfold res_eqb in H2. destruct (run_ideal c) as [i|e']; [discriminate|].
+  apply exc_eqb_eq in H2. now subst.
 Qed.
